@@ -50,8 +50,12 @@ func configs(prop string, thorough bool) []*Config {
 			},
 			Logins: []LoginDef{{PID: 101}, {PID: 102}},
 		}
+		// the same oracle on the pid-reuse alphabet: a session that ended must not swallow the
+		// login of the next session of that pid (none of whose events would then be emitted)
+		r := configs("C09", false)[0]
+		r.Name = "C02-under-pid-reuse"
 		if !thorough {
-			return []*Config{c}
+			return []*Config{c, r}
 		}
 		c3 := &Config{Name: "C02-3sess", CutMode: 1, OSeq: true, OIntact: true,
 			Sess: []SessDef{
@@ -61,7 +65,7 @@ func configs(prop string, thorough bool) []*Config {
 			},
 			Logins: []LoginDef{{PID: 101}, {PID: 102}, {PID: 103}},
 		}
-		return []*Config{c, c3}
+		return []*Config{c, r, c3}
 	case "C10":
 		// C10(a): the production JSON writer under every history of C02's alphabet:
 		// one Write per event, whole event per Write, nothing written twice.
@@ -85,11 +89,16 @@ func configs(prop string, thorough bool) []*Config {
 			c.Sess = append(c.Sess, SessDef{ID: "4294967295", PID: "105", Events: []auparse.AuditMessageType{tLOGIN, tEV, tDISP}})
 			c.Logins = append(c.Logins, LoginDef{PID: 105})
 		}
-		return []*Config{c}
+		// "whatever is emitted for a session after its credential-disposal record still carries only
+		// that session's own identity": only observable when another login with the same pid exists,
+		// so C04 also walks the pid-reuse alphabet of C09 with its identity oracle.
+		r := configs("C09", thorough)[0]
+		r.Name, r.OSeq, r.OIntact, r.ONoLeak = "C04-late-events-under-pid-reuse", false, false, true
+		return []*Config{c, r}
 	case "C09":
 		c := &Config{Name: "C09-reuse", CutMode: 1, OSeq: true, OIntact: true,
 			Sess: []SessDef{
-				{ID: "1", PID: "101", Events: full},
+				{ID: "1", PID: "101", Events: []auparse.AuditMessageType{tLOGIN, tEV, tDISP, tEV, tEV2}}, // two stragglers after the end
 				{ID: "2", PID: "101", Events: []auparse.AuditMessageType{tLOGIN, tEV, tDISP}},
 				{ID: "3", PID: "102", Events: []auparse.AuditMessageType{tLOGIN, tEV}},
 			},
